@@ -134,10 +134,14 @@ CompFaults ==
 \cup {RunCase(Pad(n) \o <<"@component(\"~card\")", "@slot", "s", "@end", "@end", f>>, n + 6, "after-slots-runtime") : n \in 0..3, f \in RunFaults}
 \cup {RunCase(Pad(n) \o <<"@component(\"~c\", {n: " \o a \o "})">>, n + 1, "argument-runtime") : n \in 0..3, a \in {"zz", "1 / 0"}}
 
+\* every fault and truncation again in a directory that was healthy and loaded a moment before (same process, same paths)
+Healthy == SetToSeq({FileRec(m, Cat(GoodFiles[m]), "") : m \in DOMAIN GoodFiles})
+AfterHealthy(cs) == {[files |-> c.files, first |-> Healthy, cfg |-> c.cfg, load |-> c.load, ops |-> c.ops, tags |-> c.tags \o <<"after-healthy-load">>] : c \in cs}
+
 Cases == CASE Family = "c13tree" -> TreeFaults \cup CompFaults
            [] Family = "c18names" -> NameCases(Singles, Spellings, Exts)
            [] Family = "c18namesall" -> NameCases(Singles \cup Pairs, Spellings, Exts)
-           [] Family = "c18faults" -> FaultCases \cup TruncCases \cup BaseCase
+           [] Family = "c18faults" -> AfterHealthy(FaultCases \cup TruncCases) \cup FaultCases \cup TruncCases \cup BaseCase
 
 Init == cas \in Cases /\ rec = FALSE
 Next == ~rec /\ rec' = TRUE /\ UNCHANGED cas
